@@ -1029,7 +1029,12 @@ class VMDKInspector(FileInspector):
             # declares a capacity, so the size is unknown.
             return 0
 
-        # If we have the descriptor, we definitely have the header
+        if not self.region('header').complete:
+            # The provisional descriptor at the start of the file may parse
+            # before the sparse header that declares the capacity has been
+            # captured (e.g. a stream shorter than the header).
+            return 0
+
         _sig, _ver, _flags, sectors, _grain, _desc_sec, _desc_num = (
             struct.unpack('<IIIQQQQ', self.region('header').data[:44]))
 
